@@ -106,22 +106,55 @@ Theorem C06_vine_swap_interacting : forall p, prime p -> forall n i, (S i < n)%n
 Proof. exact vine_swap_interacting. Qed.
 Print Assumptions C06_vine_swap_interacting.
 
-(* Full statement NOT proved: for boundary matrices (strictly upper triangular before and after the exchange: neither cell is
-   a face of the other) the update of the implementation - at most one column addition before the exchange
-   (C06_vine_swap_preparation), and after it at most one addition between the two exchanged columns (when the preparation
-   gave them the same low) and one between the two columns of the interacting configuration - always ends in a reduced
-   decomposition of the new order.  Proved above: the exchange itself, the preparation, every configuration that needs no
-   addition afterwards, and the interacting configuration when no preparation was needed; missing: the configurations in which
-   the preparation (which may give columns i and i+1 the same low) has to be undone after the exchange.  Every state the implementation reaches is certified by check_any instead (C06_check_RU_sound). *)
-Definition C06_vine_swap_full : Prop :=
-  forall p, prime p -> forall n i, (S i < n)%nat -> forall D R,
-  (forall j r, (j <= r)%nat -> zm p (D j r)) -> (forall j r, (j <= r)%nat -> zm p (pmat i D j r)) ->
+(* When the preparing addition is really needed (V[i][i+1] <> 0), two sub-cases.  (1) Column i is zero or has the smaller low: the
+   prepared matrix is still reduced, so the theorems above apply to it. *)
+Theorem C06_vine_swap_preparation_keeps_reduced : forall p, prime p -> forall n i, (S i < n)%nat -> forall R c0,
+  reduced p n R ->
+  (is_zero p n (R i) \/ exists li ls, is_low p n (R i) li /\ is_low p n (R (S i)) ls /\ (li < ls)%nat) ->
+  reduced p n (col_add R (S i) i c0).
+Proof. exact prep_keeps_reduced. Qed.
+Print Assumptions C06_vine_swap_preparation_keeps_reduced.
+
+(* (2) Column i has the larger low: after preparation and exchange the two columns have the same low; one addition between them gives,
+   up to an invertible scalar (C06_vine_swap_recombination_is_one_addition), the conjugate of [recomb R c0] (column i+1 := R_{i+1} +
+   c0.R_i, column i := R_{i+1}), which is a decomposition of the new order, and [recomb R c0] is reduced with the two lows exchanged. *)
+Theorem C06_vine_swap_recombination_decomposes : forall p, prime p -> forall n i, (S i < n)%nat -> forall D R c0,
+  tri p n D R ->
+  (exists c, ~ zm p (c i) /\ veq p n (R (S i)) (comb D c (S (S i)))) ->
+  (exists c, zm p (c i) /\ ~ zm p (c (S i)) /\ veq p n (col_add R (S i) i c0 (S i)) (comb D c (S (S i)))) ->
+  tri p n (pmat i D) (pmat i (recomb i R c0)).
+Proof. exact recomb_tri. Qed.
+Print Assumptions C06_vine_swap_recombination_decomposes.
+
+Theorem C06_vine_swap_recombination_reduced : forall p, prime p -> forall n i, (S i < n)%nat -> forall R c0 li,
+  reduced p n R -> ~ zm p c0 -> is_low p n (R i) li ->
+  (is_zero p n (R (S i)) \/ exists ls, (ls < li)%nat /\ is_low p n (R (S i)) ls) ->
+  reduced p n (recomb i R c0) /\ is_low p n (recomb i R c0 (S i)) li.
+Proof. exact recomb_reduced. Qed.
+Print Assumptions C06_vine_swap_recombination_reduced.
+
+Theorem C06_vine_swap_recombination_is_one_addition : forall p, prime p -> forall n i, (S i < n)%nat -> forall R c0, ~ zm p c0 ->
+  exists c2, ~ zm p c2 /\
+    (forall j r, j <> S i -> col_add (pmat i (col_add R (S i) i c0)) (S i) i c2 j r = pmat i (recomb i R c0) j r) /\
+    (forall r, zm p (col_add (pmat i (col_add R (S i) i c0)) (S i) i c2 (S i) r - c2 * pmat i (recomb i R c0) (S i) r)).
+Proof. exact recomb_as_addition. Qed.
+Print Assumptions C06_vine_swap_recombination_is_one_addition.
+
+(* All configurations together: whatever the reduced decomposition R of D, one preparing addition (possibly with coefficient 0), the
+   exchange, and at most two more additions (the one folded into [recomb], and one between the two interacting columns) end in a
+   reduced decomposition of the boundary matrix of the new order - whose pairing is, by C06_pairing_unique, the one any rebuild from
+   scratch finds.  This is the case analysis of RU_vine_swap::vine_swap at the level of R; the bookkeeping of U/V as matrices, of the
+   stored barcode and of the lazily swapped rows is not modelled: every state the implementation reaches is certified by check_any
+   (C06_check_RU_sound). *)
+Theorem C06_vine_swap_complete : forall p, prime p -> forall n i, (S i < n)%nat -> forall D R,
   tri p n D R -> reduced p n R ->
-  exists c0 c1 c2 a b,
-    let R1 := pmat i (col_add R (S i) i c0) in
-    let R2 := col_add R1 (S i) i c1 in
-    let R3 := col_add R2 a b c2 in
-    (b < a)%nat /\ tri p n (pmat i D) R3 /\ reduced p n R3.
+  exists c0 R', (R' = col_add R (S i) i c0 \/ R' = recomb i R c0) /\
+    reduced p n R' /\ tri p n (pmat i D) (pmat i R') /\
+    (reduced p n (pmat i R') \/
+     exists x y c1, (x < y)%nat /\ (y < n)%nat /\
+       tri p n (pmat i D) (col_add (pmat i R') y x c1) /\ reduced p n (col_add (pmat i R') y x c1)).
+Proof. exact vine_swap_complete. Qed.
+Print Assumptions C06_vine_swap_complete.
 
 (* non-vacuity: two vertices and the edge joining them over Z_2, the two vertices exchanged *)
 Example C06_vine_swap_hypotheses_satisfiable :
